@@ -14,6 +14,7 @@ import OFV.Proofs.C10SzOp
 import OFV.Proofs.C10Basis
 import OFV.Proofs.C10Two
 import OFV.Proofs.C10Spin
+import OFV.Proofs.C10Lookup
 
 namespace OFV.C10
 open OFV.Model OFV.Model.C10 OFV.Spec OFV.Spec.C10
@@ -194,6 +195,23 @@ theorem build_term_op_sound (t : Term) (d : Det) (s : Nat) (hag : Agree d s)
     (hlen : ∀ f ∈ t, f.1 < d.length) (k' s' : Nat) (h : actFTerm t s = some (k', s')) :
     (applyTermDet t d).1 % 2 = k' % 2 ∧ Agree (applyTermDet t d).2 s' :=
   applyTermDet_sound t d s hag hlen k' s' h
+
+/-- The determinant lookup of `_build_term_op_`: with duplicate-free integer encodings `keys`,
+`pos = searchsorted(keys, v, sorter=argsort(keys))`, the guard `pos < size` (the fix f2ef2f64)
+and the test `keys[sorter[pos]] == v` succeed exactly when `v` is the encoding of a basis
+determinant, and then `sorter[pos]` is its position — the lookup is membership in the basis. -/
+theorem lookup_sound (keys : List Nat) (hk : keys.Nodup) (v : Nat) :
+    ((searchsorted keys v (argsort keys) < keys.length ∧
+        keys.getD ((argsort keys).getD (searchsorted keys v (argsort keys)) 0) 0 = v) ↔ v ∈ keys) ∧
+      ∀ t, t < keys.length → keys.getD t 0 = v →
+        searchsorted keys v (argsort keys) < keys.length ∧
+          (argsort keys).getD (searchsorted keys v (argsort keys)) 0 = t :=
+  lookup_sound' keys hk v
+
+/-- The big-endian integer encoding `determinant.dot(1 << arange(n)[::-1])` is injective on
+determinants of one length, so distinct basis determinants have distinct encodings. -/
+theorem encode_det_injective (a b : Det) (hl : a.length = b.length) (h : encodeDet a = encodeDet b) : a = b :=
+  encodeDet_inj a b hl h
 
 /-- `_iterate_basis_` yields the reference determinant first (so that it is the vector
 `[1, 0, …, 0]`), for every excitation level and both spin flags. -/
